@@ -8,6 +8,7 @@ import (
 	"IG-Parser/core/parser"
 	"IG-Parser/core/tree"
 	"bufio"
+	"encoding/hex"
 	"encoding/json"
 	"fmt"
 	"igpverif/sx"
@@ -16,6 +17,7 @@ import (
 	"os"
 	"runtime/debug"
 	"time"
+	"unicode/utf8"
 )
 
 type Req struct {
@@ -44,6 +46,16 @@ type Req struct {
 }
 
 type Resp map[string]interface{}
+
+// withOut stores an output string; when it is not valid UTF-8 (JSON encoding would replace bytes) the
+// exact bytes are added in hex.
+func withOut(r Resp, out string) Resp {
+	r["out"] = out
+	if !utf8.ValidString(out) {
+		r["outx"] = hex.EncodeToString([]byte(out))
+	}
+	return r
+}
 
 func setTabGlobals(r *Req) {
 	tabular.SetIncludeSharedElementsInTabularOutput(true)
@@ -80,7 +92,7 @@ func tabResult(res []tabular.TabularOutputResult, err tree.ParsingError) Resp {
 		rows = append(rows, x.StatementMap)
 		hdrs = append(hdrs, x.HeaderSymbols)
 	}
-	return Resp{"err": err.ErrorCode, "out": out, "rows": rows, "hdr": hdrs}
+	return withOut(Resp{"err": err.ErrorCode, "rows": rows, "hdr": hdrs}, out)
 }
 
 func handle(r *Req) (resp Resp) {
@@ -105,7 +117,7 @@ func handle(r *Req) (resp Resp) {
 	case "vis":
 		setVisGlobals(r)
 		out, err := endpoints.ConvertIGScriptToVisualTree(r.Stmt, r.Id, "")
-		return Resp{"err": err.ErrorCode, "out": out}
+		return withOut(Resp{"err": err.ErrorCode, "valid": json.Valid([]byte(out))}, out)
 	case "bdump":
 		st, e := sx.ParseStmt(r.Tree)
 		if e != nil {
@@ -133,7 +145,7 @@ func handle(r *Req) (resp Resp) {
 		setVisGlobals(r)
 		root := &tree.Node{Entry: st}
 		out, err := root.PrintNodeTree(nil, r.Flat, r.Bin, r.Anno, r.Dov, r.AcTop, 0)
-		return Resp{"err": err.ErrorCode, "out": out}
+		return withOut(Resp{"err": err.ErrorCode, "valid": json.Valid([]byte(out))}, out)
 	case "btab":
 		st, e := sx.ParseStmt(r.Tree)
 		if e != nil {
